@@ -9,6 +9,9 @@
 -/
 import RxModel.Model.Compile
 import RxModel.Model.Unicode
+import RxModel.Props.C02
+import RxModel.Props.C05
+import RxModel.Props.C06
 import Std.Data.HashMap
 namespace Rx.Driver
 open Rx
@@ -163,8 +166,17 @@ def runFull (dialect mode : String) (pattern flags : List Nat) (api : String) (i
       progS ((parseFlags flags (dialect == "xs")).getD {}) r
     else runRegex r api input repl limit
 
+/-- the decidable hypotheses of the engine theorems, evaluated on a concrete compiled program -/
+def wfReport (pr : Prog) (len : Nat) : String :=
+  let b (x : Bool) : String := if x then "1" else "0"
+  let facts : Bool := (match pr.prefix_ with | some pre => decide (pre.length ≤ pr.minLen) || decide (pr.minLen = usizeMax) | none => true) &&
+                      pr.pres.all (fun q => !hasBackref q.op)
+  s!"WF:wf={b (wfOp pr.op)},caps={b (C02.capsPos pr.op)},small={b (C06.smallMin len pr.op)},pre={b (pr.pres.all (fun q => C06.simplePre q.op))}," ++
+  s!"facts={b facts},br={b (!hasBackref pr.op || pr.hasBackrefs)},prewf={b (pr.pres.all (fun q => wfOp q.op))}"
+
 def runApi (pr : Prog) (api : String) (input repl : List Nat) (limit : Nat) : String :=
   match api with
+  | "wf" => wfReport pr input.length
   | "compile" => "OK"
   | "is_match" => showOut (fun b => if b then "T" else "F") (pr.isMatch lowerFn input)
   | _ =>
